@@ -24,7 +24,13 @@ returns EXACTLY when the arguments pass, the first output has a graph, every req
 required node is listed), `C18_extract_owned` (`extractO`, the pipeline with the ownership checks of the clone's
 `Graph(...)` constructors — boundary values of a view that a nested graph lists — against `extract`),
 `C18_clone_stage_C13` / `C18_extract_clone_C13` (acceptance by this model's clone stage implies acceptance by C13's
-scope walker on every regular heap representing the view, hence C13's heap-level clone returns a fresh graph).
+scope walker on every regular heap representing the view, hence C13's heap-level clone returns a fresh graph),
+`C18_source_of_C01_nested` (C01 kernel worlds WITH the graphs their node attributes hold: consistent back pointers
+and closed trees follow from `Kernel.WF` + closed kernel graphs), `C18_captures_needs_scoped` (scoping of uses by
+owner is necessary), `C18_extract_D460` (the pipeline after the proposed fix D460 against the pipeline as it is),
+`C18_own_pass` / `C18_extractO_succeeds_iff` (the ownership checks pass when no value is listed by two graphs of the
+view's tree; outcome table of the pipeline as the code runs it), `C18_clone_stage_C13_exact` (this model's clone
+stage returns exactly when C13's heap-level clone returns, and where it raises C13's clone ends with a clear error).
 -/
 import IrVerif.Lemmas.Extract
 import IrVerif.Lemmas.Implicit
@@ -37,6 +43,8 @@ import IrVerif.Lemmas.ExtractAttrs
 import IrVerif.Lemmas.ExtractKernel
 import IrVerif.Lemmas.ExtractSucceeds
 import IrVerif.Lemmas.ExtractC13
+import IrVerif.Lemmas.ExtractKernelN
+import IrVerif.Lemmas.ExtractOwn
 import IrVerif.Props.C13
 set_option linter.unusedSimpArgs false
 namespace IrVerif.Extract
@@ -2072,10 +2080,11 @@ theorem C18_clone_stage_C13 {w : Clone.World} {t : GraphT} {gv fuel : Nat} {s : 
           ∀ v, some v ∈ n.inputs → w.length ≤ v ∧ v < w'.length) ∧
       (∀ (i : Nat) (c : Clone.Cell), w[i]? = some c → w'[i]? = some c) := by
   have hsim0 : SimSt {} {} := by
-    refine ⟨?_, ?_, ?_, ?_⟩
+    refine ⟨?_, ?_, ?_, ?_, ?_⟩
     · intro v; constructor <;> (intro hv; cases hv)
-    · intro v hv; cases hv
-    · intro v hv; cases hv
+    · intro v; constructor <;> (intro hv; cases hv)
+    · intro c hc; cases hc
+    · intro v; constructor <;> (intro hv; cases hv)
     · intro v hv; cases hv
   obtain ⟨A, hA, _, _⟩ := simG w t fuel gv {} s {} hrep hreg hfuel hnr hsim0 h
   have hv : Clone.cloneVerdict fuel false w gv = .ok A := hA
@@ -2155,5 +2164,333 @@ example : ∃ g' w', Clone.run (Clone.graphClone 4 false 0) exHeap = (.ok g', w'
   obtain ⟨s, hs⟩ := exHeap_clone
   obtain ⟨_, g', w', h, _⟩ := C18_clone_stage_C13 (fuel := 4) exHeap_rep exHeap_reg (by decide) exHeap_nr hs
   exact ⟨g', w', h⟩
+
+/-! ## C01 -> C18 for nodes holding subgraphs; necessity of scoping by owner (follow-up round) -/
+
+/-- **C18_source_of_C01_nested** (extends `C18_source_of_C01` to nodes holding subgraphs): a graph built by ANY
+    history of the C01 editing alphabet (`Kernel.WF`; the kernel now carries `NodeS.attrs`), read as a world of
+    this model WITH the graphs its node attributes hold (`ofKernelN` / `kGraph`: unfolded to any depth `fuel`,
+    the `.graph` back pointer being the `Value.graph` property: `_graph` when set, else the producer's graph),
+    and whose graphs are closed (`KClosed`: every graph output is defined at the top level of its graph — what
+    onnx.checker demands; necessary, see the example below): the `.graph` back pointers are CONSISTENT with the
+    structure on every subtree (`BackPtrOK`, the hypothesis `backPtrB` of `C18_external_free`,
+    `C18_nodes_exact_free`, `C18_captures_*`), every unfolded tree is closed (`closedG`), also for the bodies of
+    every node of the embedded table; and the facts of `C18_source_of_C01` about the source list hold for the
+    embedding with subgraphs.  Not implied by `WF` (a `Graph` lets a node read any value): topological order,
+    well-scopedness of the nested graphs, scoping of uses by owner (`scopedGB`: necessary,
+    `C18_captures_needs_scoped`), distinct identities of nested graphs. -/
+theorem C18_source_of_C01_nested (w : Kernel.World) (h : Kernel.WF w) (hc : KClosed w) (F fuel gid : Nat) :
+    BackPtrOK (ofKernelN w F) (kGraph w fuel gid) ∧ closedG (kGraph w fuel gid) = true ∧
+    (∀ n b, b ∈ ((ofKernelN w F).nodeD n).bodies → BackPtrOK (ofKernelN w F) b ∧ closedG b = true) ∧
+    (w.gr gid).nodes.Nodup ∧
+    (∀ n o, o ∈ ((ofKernelN w F).nodeD n).outputs → (ofKernelN w F).prod o = some n) ∧
+    (∀ v n, (ofKernelN w F).prod v = some n → v ∈ ((ofKernelN w F).nodeD n).outputs) ∧
+    (∀ u, (ofKernelN w F).isInit u = true → (ofKernelN w F).prod u = none) := by
+  refine ⟨backPtrOK_kGraph h hc F fuel gid, closedG_kGraph hc fuel gid, ?_, h.node.nodup gid, ?_, ?_, ?_⟩
+  · intro n b hb
+    rw [ofKernelN_nodeD] at hb
+    obtain ⟨f, g, _, rfl⟩ := kNode_bodies w F n b hb
+    exact ⟨backPtrOK_kGraph h hc F f g, closedG_kGraph hc f g⟩
+  · intro n o ho
+    rw [ofKernelN_nodeD, kNode_outputs] at ho
+    rw [ofKernelN_prod h]
+    exact producer_of_mem_outputs h ho
+  · intro v n hp
+    rw [ofKernelN_prod h] at hp
+    rw [ofKernelN_nodeD, kNode_outputs]
+    exact mem_outputs_of_producer h hp
+  · intro u hu
+    rw [ofKernelN_prod h]
+    have hinit : (w.val u).isInit = true := by
+      unfold World.isInit at hu
+      rw [ofKernelN_val] at hu
+      exact hu
+    exact h.root u (Or.inr hinit)
+
+/-- the kernel hypothesis `KClosed` is needed for the back pointers: a nested graph (id 1) that returns the
+    value `c` computed by a node of the enclosing graph — `c._graph` is then the NESTED graph (the output list
+    owns it), although the enclosing graph defines it: `backPtrB` fails on the nested graph -/
+example : backPtrB
+    { vals := [ { name := "x", graph := some 0 }, { name := "c", producer := some 0, graph := some 1 },
+                { name := "y", producer := some 1, graph := some 0 } ],
+      nodes := [ .mk [some 0] [1] [], .mk [] [2] [.mk 1 [] [] [1] []] ] }
+    (.mk 1 [] [] [1] []) = false := by decide
+
+/-- a node of graph 1 (nested in node 0 of the root) reads the INPUT `c` of its own nested graph 2: the use is
+    not scoped by owner (the owner of `c` is below the reader, not above) -/
+def scW : World :=
+  { vals := [ { name := "x", graph := some 0 }, { name := "c", graph := some 2 },
+              { name := "d", producer := some 1, graph := some 1 },
+              { name := "z", producer := some 0, graph := some 0 } ],
+    nodes := [ .mk [some 0] [3] [.mk 1 [] [] [2] [.mk [some 1] [2] [.mk 2 [1] [] [1] []]]],
+               .mk [some 1] [2] [.mk 2 [1] [] [1] []] ] }
+
+def scC : GraphT := .mk 2 [1] [] [1] []
+def scA : GraphT := .mk 1 [] [] [2] [.mk [some 1] [2] [scC]]
+def scRoot : GraphT := .mk 0 [0] [] [3] [.mk [some 0] [3] [scA]]
+
+/-- **C18_captures_needs_scoped**: scoping of uses by owner (`scopedGB`) is necessary for
+    `C18_captures_sound` / `C18_captures_exact`.  In `scW` the back pointers are consistent on every nested graph,
+    nested graphs have distinct identities, every graph is closed — only the scoping hypothesis fails: a node of
+    graph 1 reads a value that a graph nested in that very node defines.  `analyze_implicit_usage` then puts
+    the value in the entry of graph 1 (it walks up from the reader and never meets the owner), although graph 1
+    defines it below: it is no free variable of any nested graph with that identity.  (The real analysis does the
+    same: harness stream `necessity`, shape `reader-above-owner`.) -/
+theorem C18_captures_needs_scoped :
+    ∃ (W : World) (g : GraphT) (k : GId) (v : VId),
+      (∀ n b s, n ∈ g.nodes → b ∈ n.bodies → SubG b s → BackPtrOK W s) ∧
+      uniqueGidsB g.nodes = true ∧ closedG g = true ∧
+      (∃ n b, n ∈ g.nodes ∧ b ∈ n.bodies ∧ scopedGB W (g.nodes.flatMap (fun n => n.bodies.flatMap gidsG)) [] b = false) ∧
+      v ∈ (analyze W g).get k ∧
+      ¬ ∃ n b s, n ∈ g.nodes ∧ b ∈ n.bodies ∧ SubG b s ∧ s.gid = k ∧ FreeOf s v := by
+  have hsubA : ∀ s, SubG scA s → s = scA ∨ s = scC := by
+    intro s hs
+    cases hs with
+    | self => exact Or.inl rfl
+    | deeper hn hc hs' =>
+      simp only [scA, GraphT.nodes_mk, List.mem_singleton] at hn
+      subst hn
+      simp only [NodeT.bodies_mk, List.mem_singleton] at hc
+      subst hc
+      cases hs' with
+      | self => exact Or.inr rfl
+      | deeper hn' _ _ => simp [scC] at hn'
+  have hrange : ∀ v, scW.vals.length ≤ v → scW.graphOf v = none := fun v hv => graphOf_out_of_range hv
+  refine ⟨scW, scRoot, 1, 1, ?_, by decide, by decide, ?_, by decide +kernel, ?_⟩
+  · intro n b s hn hb hs
+    simp only [scRoot, GraphT.nodes_mk, List.mem_singleton] at hn
+    subst hn
+    simp only [NodeT.bodies_mk, List.mem_singleton] at hb
+    subst hb
+    rcases hsubA s hs with rfl | rfl
+    · exact backPtrB_sound (by decide) hrange
+    · exact backPtrB_sound (by decide) hrange
+  · exact ⟨.mk [some 0] [3] [scA], scA, by simp [scRoot], by simp, by decide⟩
+  · rintro ⟨n, b, s, hn, hb, hs, hk, hfree⟩
+    simp only [scRoot, GraphT.nodes_mk, List.mem_singleton] at hn
+    subst hn
+    simp only [NodeT.bodies_mk, List.mem_singleton] at hb
+    subst hb
+    rcases hsubA s hs with rfl | rfl
+    · exact hfree.2 ((mem_defsG scA 1).mp (by decide))
+    · revert hk; decide
+
+
+/-! ## D460: the pipeline after the proposed fix against the pipeline as it is -/
+
+theorem extractO_eq_rest (W : World) (T : Target) (ins outs : List Arg) :
+    extractO W T ins outs =
+      match checkArgs W T (valueMapping W T) (ins ++ outs) with
+      | .error e => .error e
+      | .ok () => extractRest W T ins outs := by
+  unfold extractO extractRest
+  rfl
+
+theorem checkArgF_of_checkArg {W : World} {T : Target} {m : NameMap} (isIn : Bool) {a : Arg}
+    (h : checkArg W T m a = .ok ()) : checkArgF W T m isIn a = .ok () := by
+  cases a with
+  | obj v =>
+    simp only [checkArg] at h
+    simp only [checkArgF]
+    split at h
+    · cases h
+    · rename_i hc
+      rw [if_neg]
+      intro hc'
+      apply hc
+      simp only [Bool.and_eq_true] at hc' ⊢
+      exact hc'.1
+  | name s => simpa [checkArg, checkArgF] using h
+
+theorem checkArgs_append_ok {W : World} {T : Target} {m : NameMap} : ∀ {l1 l2 : List Arg},
+    checkArgs W T m (l1 ++ l2) = .ok () → checkArgs W T m l1 = .ok () ∧ checkArgs W T m l2 = .ok ()
+  | [], l2, h => ⟨rfl, h⟩
+  | a :: l1, l2, h => by
+    simp only [List.cons_append, checkArgs] at h ⊢
+    cases ha : checkArg W T m a with
+    | error e => rw [ha] at h; cases h
+    | ok u =>
+      cases u
+      rw [ha] at h
+      simp only [] at h ⊢
+      exact checkArgs_append_ok h
+
+theorem checkArgsF_of_checkArgs {W : World} {T : Target} {m : NameMap} (isIn : Bool) : ∀ {l : List Arg},
+    checkArgs W T m l = .ok () → checkArgsF W T m isIn l = .ok ()
+  | [], _ => rfl
+  | a :: l, h => by
+    simp only [checkArgs] at h
+    cases ha : checkArg W T m a with
+    | error e => rw [ha] at h; cases h
+    | ok u =>
+      cases u
+      rw [ha] at h
+      simp only [] at h
+      simp only [checkArgsF, checkArgF_of_checkArg isIn ha]
+      exact checkArgsF_of_checkArgs isIn h
+
+/-- **C18_extract_D460**: `extractOF` — the pipeline with the argument check of the proposed fix D460 (a
+    boundary INPUT given by object is also accepted when a node of the graph-like object reads it directly) —
+    agrees with the pipeline as it is on every call that passes the current argument checks: the fix only turns
+    `notOwned` refusals into the result of the rest of the pipeline (`extractRest`), so every theorem about
+    `extractO` / `extract` holds for the fixed code on those calls, and on a call the fix newly accepts the
+    result is what `extractRest` computes — the same region search, view and clone. -/
+theorem C18_extract_D460 (W : World) (T : Target) (ins outs : List Arg) :
+    (checkArgs W T (valueMapping W T) (ins ++ outs) = .ok () →
+      extractOF W T ins outs = extractO W T ins outs) ∧
+    (∀ view, extractOF W T ins outs = .ok view → extractRest W T ins outs = .ok view) := by
+  constructor
+  · intro h
+    obtain ⟨h1, h2⟩ := checkArgs_append_ok h
+    rw [extractO_eq_rest, h]
+    unfold extractOF
+    simp only [checkArgsF_of_checkArgs true h1, checkArgsF_of_checkArgs false h2]
+  · intro view h
+    unfold extractOF at h
+    simp only [] at h
+    split at h
+    · cases h
+    · split at h
+      · cases h
+      · exact h
+
+/-- non-vacuity (the failing input of D460 in the model): graph 1 nested in node 0 reads the outer value `x`;
+    by object the repository's check refuses it, the fixed check accepts it and returns the region -/
+def d460W : World :=
+  { vals := [ { name := "x", graph := some 0 }, { name := "i", graph := some 1 },
+              { name := "y", producer := some 1, graph := some 1 },
+              { name := "z", producer := some 0, graph := some 0 } ],
+    nodes := [ .mk [some 0] [3] [.mk 1 [1] [] [2] [.mk [some 0, some 1] [2] []]],
+               .mk [some 0, some 1] [2] [] ] }
+def d460T : Target := { kind := .graph, gid := some 1, inputs := [1], inits := [], nodes := [1] }
+
+example : extractO d460W d460T [.obj 0, .obj 1] [.obj 2] = .error .notOwned ∧
+    extractO d460W d460T [.name "x", .name "i"] [.name "y"] =
+      .ok { inputs := [0, 1], outputs := [2], nodes := [1], inits := [] } ∧
+    extractOF d460W d460T [.obj 0, .obj 1] [.obj 2] =
+      .ok { inputs := [0, 1], outputs := [2], nodes := [1], inits := [] } ∧
+    extractOF d460W d460T [.obj 1] [.obj 2, .obj 0] = .error .notOwned := by decide +kernel
+
+/-! ## when the ownership checks pass; the outcome table of the real pipeline (follow-up round) -/
+
+/-- **C18_own_pass**: the ownership checks of the clone's `Graph(...)` constructors pass whenever no value is
+    listed (as input, initializer or output) by two graphs of the view's tree and no graph input / initializer
+    of the tree is a node output of the tree (`ownStaticB`, decidable, evaluated on every generated cut).  For
+    the graphs nested in the kept nodes both facts follow from C01 for every source built through the public
+    API (a value is owned by at most one graph; inputs and initializers have no producer), so what the
+    hypothesis asks of a call is: no boundary value is listed by a graph nested in a kept node, and no boundary
+    input is an output of a kept node (the D153 shape passes too, but is outside this sufficient condition). -/
+theorem C18_own_pass {W : World} {T : Target} {ins outs : List Arg}
+    (hst : ∀ view, extract W T ins outs = .ok view →
+      ownStaticB (.mk 0 view.inputs view.inits view.outputs (view.nodes.map W.nodeD)) = true) :
+    OwnPass W T ins outs := by
+  intro view hv
+  obtain ⟨_, _, m', _, _, _, hclone, _⟩ := extract_ok hv
+  exact cloneGO_of_static (hst view hv) hclone
+
+/-- **C18_extractO_succeeds_iff**: the outcome of the pipeline AS THE CODE RUNS IT (`extractO`, with the ownership
+    checks of the clone): under `RegionHyp` and `ownStaticB` it returns a graph exactly when the arguments pass
+    the checks, the first output has an owning graph, every required value is covered and every required node
+    is listed — `C18_extract_succeeds_iff` + `C18_extract_owned` + `C18_own_pass`. -/
+theorem C18_extractO_succeeds_iff (W : World) (T : Target) (ins outs : List Arg)
+    (hyp : ∀ o rest p, outs.map (resolveArg (valueMapping W T)) = o :: rest → W.graphOf o = some p →
+      RegionHyp W T p (ins.map (resolveArg (valueMapping W T))) (outs.map (resolveArg (valueMapping W T))))
+    (hst : ∀ view, extract W T ins outs = .ok view →
+      ownStaticB (.mk 0 view.inputs view.inits view.outputs (view.nodes.map W.nodeD)) = true) :
+    (∃ view, extractO W T ins outs = .ok view) ↔
+      checkArgs W T (valueMapping W T) (ins ++ outs) = .ok () ∧
+      ∃ o rest p, outs.map (resolveArg (valueMapping W T)) = o :: rest ∧ W.graphOf o = some p ∧
+        Covered W p (ins.map (resolveArg (valueMapping W T))) (outs.map (resolveArg (valueMapping W T))) ∧
+        ∀ n, NeedN W p (ins.map (resolveArg (valueMapping W T))) (outs.map (resolveArg (valueMapping W T))) n →
+          n ∈ T.nodes := by
+  rw [← C18_extract_succeeds_iff W T ins outs hyp]
+  constructor
+  · rintro ⟨view, h⟩
+    exact ⟨view, (((C18_extract_owned W T ins outs).1 view).mp h).1⟩
+  · rintro ⟨view, h⟩
+    exact ⟨view, ((C18_extract_owned W T ins outs).1 view).mpr ⟨h, C18_own_pass hst⟩⟩
+
+/-- non-vacuity: the static hypothesis holds on the example view and fails on the view whose boundary contains
+    the input of a nested graph -/
+example : ownStaticB (.mk 0 [0] [1] [3] ([0, 1].map exW.nodeD)) = true := by decide +kernel
+example : ownStaticB (.mk 0 [0, 1] [] [3] ([0].map exOwnW.nodeD)) = false := by decide +kernel
+
+/-! ## the clone stage and C13's cloner agree on the outcome (both directions, with the errors) -/
+
+/-- **C18_clone_stage_C13_exact** (from C13, `C13_clone_succeeds` + `C13_clone_error_exact`): on every C13 heap
+    that represents the tree, is regular and has no re-bound node output (hypotheses of `C18_clone_stage_C13`),
+    this model's clone stage and C13's heap-level cloner agree on the OUTCOME: `cloneGO` returns exactly when
+    `GraphView.clone()` of the heap model returns, and when `cloneGO` raises (`cloneOuter`: a node input that is
+    no key of the value map; `cloneOutput`: a graph output that is no key; `cloneOwned`: the `Graph(...)`
+    constructor refuses a clone) C13's scope walker answers a clear error and the heap-level clone ends with
+    exactly that error.  So the "raises" half of the property is tied to C13's model of the cloner by proof as
+    well, not only the "returns" half. -/
+theorem C18_clone_stage_C13_exact {w : Clone.World} {t : GraphT} {gv fuel : Nat}
+    (hrep : RepG w t gv) (hreg : RegG w t) (hfuel : depthG t ≤ fuel) (hnr : nrG [] t) :
+    ((∃ s, cloneGO {} t = .ok s) ↔
+      ∃ g' w', Clone.run (Clone.graphClone fuel false gv) w = (.ok g', w')) ∧
+    (∀ e, cloneGO {} t = .error e →
+      ∃ why, Clone.cloneVerdict fuel false w gv = .err (.raised why) ∧
+        (Clone.run (Clone.graphClone fuel false gv) w).1 = .error (.raised why)) := by
+  have hsim0 : SimSt {} {} := by
+    refine ⟨?_, ?_, ?_, ?_, ?_⟩
+    · intro v; constructor <;> (intro hv; cases hv)
+    · intro v; constructor <;> (intro hv; cases hv)
+    · intro c hc; cases hc
+    · intro v; constructor <;> (intro hv; cases hv)
+    · intro v hv; cases hv
+  have herr : ∀ e, cloneGO {} t = .error e →
+      ∃ why, Clone.cloneVerdict fuel false w gv = .err (.raised why) ∧
+        (Clone.run (Clone.graphClone fuel false gv) w).1 = .error (.raised why) := by
+    intro e he
+    obtain ⟨why, hw⟩ := errG w t fuel gv {} {} e hrep hreg hfuel hnr hsim0 he
+    have hv : Clone.cloneVerdict fuel false w gv = .err (.raised why) := hw
+    exact ⟨why, hv, Clone.C13_clone_error_exact hv⟩
+  refine ⟨⟨?_, ?_⟩, herr⟩
+  · rintro ⟨s, hs⟩
+    obtain ⟨_, g', w', hrun, _⟩ := C18_clone_stage_C13 hrep hreg hfuel hnr hs
+    exact ⟨g', w', hrun⟩
+  · rintro ⟨g', w', hrun⟩
+    cases hc : cloneGO {} t with
+    | ok s => exact ⟨s, rfl⟩
+    | error e =>
+      exfalso
+      obtain ⟨why, _, hr⟩ := herr e hc
+      rw [hrun] at hr
+      cases hr
+
+/-- non-vacuity of the error half: the view of `exOwnW` whose boundary contains the input `i` of the nested
+    graph, as a C13 heap: `cloneGO` raises the ownership error and C13's heap-level clone raises the
+    constructor's error -/
+def exOwnHeap : Clone.World := [
+  .graph { name := some "v", inputs := [3, 16], outputs := [6], nodes := [9], props := 1, mstore := 2, view := true },
+  .dict {}, .dict {},
+  .val { name := some "x", graph := some 0, isIn := true, props := 4, mstore := 5 }, .dict {}, .dict {},
+  .val { name := some "y", producer := some 9, index := some 0, props := 7, mstore := 8 }, .dict {}, .dict {},
+  .node { name := some "n", opType := "Loopy", inputs := [some 3], outputs := [6], attrs := [("body", 12)],
+          props := 10, mstore := 11 }, .dict {}, .dict {},
+  .attr { name := "body", v := .graph 13 },
+  .graph { name := some "b", inputs := [16], outputs := [19], nodes := [22], props := 14, mstore := 15 },
+  .dict {}, .dict {},
+  .val { name := some "i", graph := some 13, isIn := true, props := 17, mstore := 18 }, .dict {}, .dict {},
+  .val { name := some "j", producer := some 22, index := some 0, graph := some 13, isOut := true,
+         props := 20, mstore := 21 }, .dict {}, .dict {},
+  .node { name := some "m", opType := "Add", inputs := [some 3, some 16], outputs := [19], graph := some 13,
+          props := 23, mstore := 24 }, .dict {}, .dict {} ]
+
+def exOwnTree : GraphT :=
+  .mk 0 [3, 16] [] [6] [.mk [some 3] [6] [.mk 1 [16] [] [19] [.mk [some 3, some 16] [19] []]]]
+
+example : ∃ why, (Clone.run (Clone.graphClone 4 false 0) exOwnHeap).1 = .error (.raised why) := by
+  have hrep : RepG exOwnHeap exOwnTree 0 := by
+    simp [RepG, RepNs, RepN, RepGs, exOwnTree, exOwnHeap, attrGraphs, Clone.wDict, Clone.wCell, Clone.WRes.bind]
+  have hreg : RegG exOwnHeap exOwnTree := by
+    simp [RegG, RegNs, RegN, RegGs, exOwnTree, RegVal, exOwnHeap, Clone.wOptShape, Clone.wOptType, Clone.wDict,
+      Clone.wCell, Clone.WRes.bind, Clone.distinct]
+  have hnr : nrG [] exOwnTree := nrG_of_B exOwnTree [] (by decide +kernel)
+  have herr : cloneGO {} exOwnTree = .error .cloneOwned := by
+    simp [cloneGO, cloneNsO, cloneNO, cloneGsO, exOwnTree, CSt.cur]
+  obtain ⟨why, _, h⟩ := (C18_clone_stage_C13_exact (fuel := 4) hrep hreg (by decide) hnr).2 _ herr
+  exact ⟨why, h⟩
 
 end IrVerif.Extract
